@@ -20,7 +20,9 @@ EXPLANATION = (
     "scans ALL queued messages: False as soon as one message's parent is inside the cycle, True only after the scan, False when there is no cycle "
     "root; _msg_parent reads the parent of an 'e' message from its keyword dictionary and of 'r'/'c' messages from position 1; QE "
     "StackBasedEngine.init_message_stack selects a concrete, conserving queue on every path, an any-order queue exactly when the engine is "
-    "unbuffered, and with rc_first one whose pop() prefers the container that append() fills with non-'e' (result / complete) messages. "
+    "unbuffered, and with rc_first one whose pop() prefers the container that append() fills with non-'e' (result / complete) messages; QG "
+    "EvalDefine.new_result forwards every new non-FALSE answer of an unbuffered node (no further condition). QD is applied to the cycle_exhausted that each any-order queue "
+    "resolves to, so an override in a subclass is judged by the same table. "
     "Each clause was confirmed to be necessary by breaking it in a scratch copy and comparing the engines on the programs under test/ (triage only; the "
     "check itself runs nothing): a stack queue under unbuffered=True and a cycle_exhausted that looks at the top message only both end in "
     "InvalidEngineState or different answers. Not decided, and violated by the pinned tree on some programs (DESIGN section 6): the equality of the "
@@ -149,14 +151,32 @@ def rule_qa_qb_qc(repo, col):
 
 def rule_qd(repo, col):
     c = repo.cls(ES, "MessageAnyOrder")
-    m = c.module
-    ce = c.methods.get("cycle_exhausted")
     mp = c.methods.get("_msg_parent")
-    if ce is None or mp is None:
+    # the cycle_exhausted every any-order queue actually uses (an override in a subclass is judged by the same table)
+    _, classes = _queue_classes(repo)
+    ces = []
+    for k in classes:
+        if any(x is c for x in repo.mro(k)):
+            r = _resolve(repo, k, "cycle_exhausted")
+            if r is not None and r not in ces:
+                ces.append(r)
+    if not ces or mp is None:
         raise AnalysisError("MessageAnyOrder.cycle_exhausted / _msg_parent missing")
+    for ce in ces:
+        _qd_one(repo, col, ce, mp if ce is ces[0] else None)
+
+
+def _qd_one(repo, col, ce, mp):
+    m = ce.module
+    qn = ce.qualname
     loops = [n for n in walk_no_nested(ce.node) if isinstance(n, ast.For)]
+    if not loops:
+        col.fail("QD", m, ce.node, "%s decides cycle exhaustion without scanning the queued messages: in an any-order queue a message inside the cycle can sit anywhere, so looking at "
+                 "one message (the top) closes the cycle while work for it is still pending - derivations are lost or the engine ends in InvalidEngineState" % qn,
+                 construct="def %s: no scan of the queue" % qn, function=qn)
+        return
     if len(loops) != 1:
-        raise AnalysisError("MessageAnyOrder.cycle_exhausted: scan loop not found")
+        raise AnalysisError("%s: scan loop not found" % qn)
     lp = loops[0]
     col.decide("QD", m, lp, norm(lp.iter) in ("self", "iter(self)", "list(self)"), "cycle_exhausted scans every queued message",
                "MessageAnyOrder.cycle_exhausted scans %s instead of all queued messages (`self`): a message inside the cycle that is not scanned lets the cycle be closed while work for it "
@@ -165,6 +185,12 @@ def rule_qd(repo, col):
     okb = bool(body)
     for p_ in body:
         inc = [t_ for s_, t_, _ in p_.conds if s_.startswith("self.engine.in_cycle(")]
+        if not inc and p_.end in ("continue", "fall"):
+            skipped = [s_ for s_, t_, _ in p_.conds]
+            col.fail("QD", m, lp, "%s skips a queued message without asking whether its parent is in the cycle (when %s): result and completion messages inside the cycle keep it open just as "
+                     "evaluation messages do - with them ignored the cycle is closed too early and proofs through the recursive call are lost" % (qn, ", ".join(skipped) or "always"),
+                     construct="def %s: message skipped by the scan" % qn, function=qn)
+            return
         if len(inc) != 1:
             raise AnalysisError("MessageAnyOrder.cycle_exhausted: in_cycle test not found on a path of the scan")
         if inc[0]:
@@ -182,6 +208,8 @@ def rule_qd(repo, col):
     col.decide("QD", m, ce.node, okr, "no cycle root -> not exhausted; scan finished without a hit -> exhausted",
                "cycle_exhausted must answer False when there is no cycle root and True when the scan finds no message inside the cycle",
                construct="def cycle_exhausted: outcomes", function="MessageAnyOrder.cycle_exhausted")
+    if mp is None:
+        return
     msg = mp.params[1]
     t = {}
     for p_ in dtable.extract(mp.node):
@@ -241,6 +269,35 @@ def rule_qe(repo, col, concrete):
     col.floor("QE.selection_rows", n, 3)
 
 
+def rule_qg(repo, col):
+    """EvalDefine.new_result: an unbuffered node forwards every new answer (a result node that is not FALSE) to its parent when it records it - nothing else decides that"""
+    f = repo.func("problog.eval_nodes", "EvalDefine.new_result")
+    m = f.module
+    paths = dtable.extract(f.node, opaque_loops=True)
+    n = 0
+    bad = []
+    for p_ in paths:
+        cd = [(s_, t_) for s_, t_, _ in p_.conds]
+        unbuffered = ("self.is_buffered()", False) in cd
+        if ("self.is_buffered()", True) in cd and unbuffered:
+            continue  # is_buffered() is a pure query (a test of two flags): a path that sees it both ways is infeasible
+        dead = any((s_.endswith(" is not NODE_FALSE") and not t_) or (s_.endswith(" is NODE_FALSE") and t_) for s_, t_ in cd)
+        records_new = any(fn == "<store>" and a and a[0].startswith("self.results[") and len(a) > 1 and "add_or(" in a[1] or
+                          fn == "<store>" and a and a[0].startswith("self.results[") and len(a) > 1 and "_cache[" in a[1] for fn, a, _ in p_.calls)
+        if not (unbuffered and records_new) or dead:
+            continue
+        n += 1
+        if not any(fn == "self.notifyResult" for fn, _, _ in p_.calls):
+            extra = [s_ for s_, t_ in cd if "cycle_root" in s_ or "is_cycle" in s_]
+            bad.append(extra[0] if extra else "some path")
+    if n == 0:
+        raise AnalysisError("EvalDefine.new_result: unbuffered forwarding paths not found")
+    col.decide("QG", m, f.node, not bad, "an unbuffered define node forwards every new non-FALSE answer",
+               "EvalDefine.new_result has an unbuffered path with a live result node that does not call notifyResult (it also depends on `%s`): in the unbuffered engine that answer never "
+               "reaches the parent - a cycle root drops every answer found after the cycle was detected (path/2 over a cyclic graph loses instances), while the default engine, where such "
+               "a node is buffered, is unaffected" % (bad[0] if bad else ""), construct="EvalDefine.new_result: unbuffered answer not forwarded", function="EvalDefine.new_result")
+
+
 def run(repo, col):
     col.rule("QA", "every concrete message queue implements the whole protocol")
     col.rule("QB", "container conservation: stored == removed == counted / tested / iterated")
@@ -250,3 +307,5 @@ def run(repo, col):
     concrete = rule_qa_qb_qc(repo, col)
     rule_qd(repo, col)
     rule_qe(repo, col, concrete)
+    col.rule("QG", "unbuffered define nodes forward every answer")
+    rule_qg(repo, col)
